@@ -509,11 +509,14 @@ class CustomSD(BaseCorrelations):
                                      limit=subdiv_limit)
 
         if self.cutoff_type != "hard":
-            integral += _complex_integral(integrand,
-                                          a=self.cutoff,
-                                          b=np.inf,
-                                          epsrel=epsrel,
-                                          limit=subdiv_limit)
+            # integrate the tail in units of the cutoff frequency: the
+            # quadrature over a semi-infinite range is not scale covariant
+            integral += self.cutoff * _complex_integral(
+                lambda x: integrand(self.cutoff * x),
+                a=1.0,
+                b=np.inf,
+                epsrel=epsrel,
+                limit=subdiv_limit)
         if matsubara:
             integral = integral.real
         return integral
@@ -587,11 +590,14 @@ class CustomSD(BaseCorrelations):
                                      limit=subdiv_limit)
 
         if self.cutoff_type != "hard":
-            integral += _complex_integral(integrand,
-                                          a=self.cutoff,
-                                          b=np.inf,
-                                          epsrel=epsrel,
-                                          limit=subdiv_limit)
+            # integrate the tail in units of the cutoff frequency: the
+            # quadrature over a semi-infinite range is not scale covariant
+            integral += self.cutoff * _complex_integral(
+                lambda x: integrand(self.cutoff * x),
+                a=1.0,
+                b=np.inf,
+                epsrel=epsrel,
+                limit=subdiv_limit)
         if matsubara:
             integral = integral.real
         return -integral
